@@ -350,7 +350,7 @@ def run(ctx):
                        "distance reward (relational), weighted sampling, the value of the coefficient of variation and the window bookkeeping.")
     ctx.assumptions += ["a gamma variate is >= 0", "rewards are finite reals", "float rounding, overflow and underflow are outside the sign domain"]
     ctx.run("C07-T1", "termination estimates stay within [0,1] by construction", c07.t1_estimates_clamped, floor=5)
-    ctx.run("C18-V1", "variation criterion: universal fold over objectives with the documented per-objective step", v1_threshold_fold, floor=4)
+    ctx.run("C18-V1", "variation criterion: universal fold over objectives with the documented per-objective step", v1_threshold_fold, floor=1)
     ctx.run("C18-V2", "variation verdict reported iff global or exploitation phase", v2_phase_gating, floor=6)
     ctx.run("C18-S1", "SlotMachine learning state: shape > 0, rate > 0, variance >= 0 hold at construction and are preserved by every writer (sign analysis)", s1_slot_machine_invariants, floor=8)
     ctx.run("C18-S2", "distribution sampler arguments: gamma shape/scale > 0, normal std >= 0, no division by a possibly-zero value on the sampling path", s2_sampler_arguments, floor=3)
